@@ -332,6 +332,26 @@ async fn versatiles_stream_beyond_coverage(a: &[String]) -> Result<bool> {
 	Ok(streamed.len() != expected)
 }
 
+// C19/C05: a single-tile lookup in an MBTiles file for a coordinate outside the grid of its level (as an HTTP request can name it)
+async fn mbtiles_lookup_out_of_grid(a: &[String]) -> Result<bool> {
+	let (z, x, y): (u8, u32, u32) = (arg(a, 0), arg(a, 1), arg(a, 2));
+	let dir = std::env::temp_dir().join(format!("verif_replay_mbtiles2_{}", std::process::id()));
+	std::fs::create_dir_all(&dir)?;
+	let path = dir.join("t.mbtiles");
+	let _ = std::fs::remove_file(&path);
+	{
+		let conn = r2d2_sqlite::rusqlite::Connection::open(&path)?;
+		conn.execute_batch("CREATE TABLE metadata (name text, value text); CREATE TABLE tiles (zoom_level integer, tile_column integer, tile_row integer, tile_data blob);
+			INSERT INTO metadata VALUES ('format', 'pbf'); INSERT INTO tiles VALUES (2, 1, 1, x'2a');")?;
+	}
+	let reader = versatiles_container::MBTilesReader::open_path(&path)?;
+	let coord = TileCoord3::new(x, y, z)?;
+	let r = reader.get_tile_data(&coord).await;
+	let _ = std::fs::remove_dir_all(&dir);
+	println!("get_tile_data({coord:?}) -> {:?}", r.map(|o| o.map(|b| b.len())));
+	Ok(false)
+}
+
 fn main() -> Result<()> {
 	let args: Vec<String> = std::env::args().skip(1).collect();
 	if args.is_empty() { eprintln!("usage: verif_replay <case> args…"); std::process::exit(2); }
@@ -348,6 +368,7 @@ fn main() -> Result<()> {
 			"versatiles_short_tile_index" => rt.block_on(versatiles_short_tile_index(rest)),
 			"pmtiles_entry_offset_overflow" => rt.block_on(pmtiles_entry_offset_overflow(rest)),
 			"svarint_roundtrip" => svarint_roundtrip(rest),
+			"mbtiles_lookup_out_of_grid" => rt.block_on(mbtiles_lookup_out_of_grid(rest)),
 			"versatiles_stream_beyond_coverage" => rt.block_on(versatiles_stream_beyond_coverage(rest)),
 			"pmtiles_run_coverage" => rt.block_on(pmtiles_run_coverage(rest)),
 			"print_tile_ids" => print_tile_ids(rest),
